@@ -63,6 +63,17 @@ pub struct FaultyFlush {
     pub rng: Rng,
     pub pending: Option<Step>,
     pub pct: u64,
+    /// which operations get the transient error
+    pub which: fn(&Op) -> bool,
+}
+
+pub fn is_flush(op: &Op) -> bool {
+    matches!(op, Op::Flush { .. })
+}
+
+/// calls that change the volume and report errors (closing a handle is excluded: a destructor cannot report)
+pub fn is_mutating(op: &Op) -> bool {
+    matches!(op, Op::Flush { .. } | Op::Write { .. } | Op::Truncate { .. } | Op::CreateFile { .. } | Op::CreateDir { .. } | Op::Remove { .. } | Op::Rename { .. })
 }
 
 impl crate::engine::StepSource for FaultyFlush {
@@ -71,7 +82,7 @@ impl crate::engine::StepSource for FaultyFlush {
             return Some(s);
         }
         let mut s = self.g.next(w, h)?;
-        if self.pct > 0 && matches!(s.op, Op::Flush { .. }) && self.rng.below(100) < self.pct {
+        if self.pct > 0 && (self.which)(&s.op) && self.rng.below(100) < self.pct {
             // transient error somewhere inside this flush, then the caller simply tries again
             let retry = Step { c: s.c, op: s.op.clone(), hard_at: None, sticky: false };
             s.hard_at = Some(self.rng.range(1, 12));
@@ -86,6 +97,70 @@ pub fn run(seed: u64, dense: bool) -> RunOutcome {
 }
 
 pub fn run_mode(seed: u64, dense: bool, fault_pct: u64) -> RunOutcome {
+    run_full(seed, dense, fault_pct, false)
+}
+
+/// A prologue that puts a flushed file through the states where its entry, size and chain are rewritten
+/// independently (shrunk to a prefix or to nothing, flushed, grown again, flushed), then lets other files
+/// allocate, optionally in a new session; the seeded generator continues from there.
+fn rewrite_prologue(r: &mut Rng, cl: u64, q: &mut std::collections::VecDeque<Op>) {
+    let a = (*r.pick(&["victim.dat", "A long victim name.data", "V"])).to_string();
+    let b = (*r.pick(&["other.bin", "Another long file name.bin", "O"])).to_string();
+    let len = |r: &mut Rng| -> u32 {
+        match r.below(4) {
+            0 => r.range(1, cl) as u32,
+            1 => cl as u32,
+            2 => (cl + r.range(1, cl)) as u32,
+            _ => r.range(1, 3 * cl) as u32,
+        }
+    };
+    q.push_back(Op::CreateFile { base: 0, path: a.clone(), keep: Some(0) });
+    let l0 = len(r);
+    q.push_back(Op::Write { f: 0, len: l0, fill: r.next_u64() });
+    if r.chance(1, 2) {
+        q.push_back(Op::Flush { f: 0 });
+    }
+    q.push_back(Op::CloseFile { f: 0 });
+    if r.chance(1, 2) {
+        q.push_back(Op::CreateFile { base: 0, path: "filler".into(), keep: Some(1) });
+        q.push_back(Op::Write { f: 1, len: len(r), fill: r.next_u64() });
+        q.push_back(Op::CloseFile { f: 1 });
+    }
+    if r.chance(1, 3) {
+        q.push_back(Op::Remount { how: r.below(2) as u8 });
+    }
+    q.push_back(Op::OpenFile { base: 0, path: a.clone(), slot: 0 });
+    let pos = match r.below(4) {
+        0 | 1 => 0,
+        2 => (u64::from(l0) / cl) * cl,
+        _ => r.below(u64::from(l0) + 1),
+    };
+    if pos > 0 {
+        q.push_back(Op::Seek { f: 0, whence: 0, off: pos as i64 });
+    }
+    q.push_back(Op::Truncate { f: 0 });
+    match r.below(3) {
+        0 => q.push_back(Op::Flush { f: 0 }),
+        1 => {
+            q.push_back(Op::CloseFile { f: 0 });
+            q.push_back(Op::OpenFile { base: 0, path: a.clone(), slot: 0 });
+            if pos > 0 {
+                q.push_back(Op::Seek { f: 0, whence: 2, off: 0 });
+            }
+        }
+        _ => {}
+    }
+    q.push_back(Op::Write { f: 0, len: len(r), fill: r.next_u64() });
+    q.push_back(if r.chance(1, 2) { Op::Flush { f: 0 } } else { Op::CloseFile { f: 0 } });
+    if r.chance(2, 3) {
+        q.push_back(Op::Remount { how: r.below(3) as u8 });
+    }
+    q.push_back(Op::CreateFile { base: 0, path: b, keep: Some(1) });
+    q.push_back(Op::Write { f: 1, len: len(r), fill: r.next_u64() });
+    q.push_back(Op::Flush { f: 1 });
+}
+
+pub fn run_full(seed: u64, dense: bool, fault_pct: u64, prologue: bool) -> RunOutcome {
     let mut r = Rng::new(seed);
     let mut fl = props::base_flavor("C14");
     fl.oracles = Oracles { crash_log: true, ..Default::default() };
@@ -96,23 +171,30 @@ pub fn run_mode(seed: u64, dense: bool, fault_pct: u64) -> RunOutcome {
     let mut prof = Profile::mixed();
     prof.steps = r.range(6, 40) as usize;
     prof.w_checkpoint = 0;
-    prof.w_remount = 0;
+    // sessions end and the volume is mounted again (clean unmount, drop, or abandonment): the allocation hint is
+    // lost on FAT12/16, so later allocations start from the low end of the table again
+    prof.w_remount = if r.chance(1, 2) { 6 } else { 0 };
+    prof.w_truncate = 8;
     prof.w_flush = 14;
     prof.w_close = 12;
     prof.w_write = 24;
     prof.invalid_names = 10;
     prof.max_write = 20_000;
     prof.clients = r.range(1, 3) as u8;
-    let mut g = FaultyFlush { g: Gen::new(r.next_u64(), prof), rng: Rng::new(seed ^ 0xFA17), pending: None, pct: fault_pct };
-    let base = exec::run(cfg.clone(), "C14", &mut g, 200);
-    if fault_pct > 0 {
-        *RunOutcome::empty().counters.entry("x".into()).or_insert(0) += 0;
+    if prologue {
+        prof.steps += 24;
     }
+    let mut g = FaultyFlush { g: Gen::new(r.next_u64(), prof), rng: Rng::new(seed ^ 0xFA17), pending: None, pct: fault_pct, which: is_flush };
+    if prologue {
+        let cl = u64::from(cfg.vol.spc) * u64::from(cfg.vol.bps);
+        rewrite_prologue(&mut r, cl, &mut g.g.queue);
+    }
+    let base = exec::run(cfg.clone(), "C14", &mut g, 200);
     let mut o = RunOutcome::empty();
     o.evaluations = 0;
     o.stats = base.stats.clone();
     o.counters.insert("hard_errors_injected_in_flush".into(), base.stats.hard_faults);
-    let mkrep = |v: &Violation| Replay { property: "C14".into(), kind: if fault_pct > 0 { "c14-faulty-flush".into() } else if dense { "c14-dense".into() } else { "c14".into() }, seed, cfg: cfg.clone(), steps: base.trace.clone(), violation: Some(v.clone()) };
+    let mkrep = |v: &Violation| Replay { property: "C14".into(), kind: if prologue { "c14-rewrite".into() } else if fault_pct > 0 { "c14-faulty-flush".into() } else if dense { "c14-dense".into() } else { "c14".into() }, seed, cfg: cfg.clone(), steps: base.trace.clone(), violation: Some(v.clone()) };
     if let Some(v) = base.violation {
         o.violation = Some((v.clone(), mkrep(&v)));
         return o;
@@ -184,6 +266,7 @@ pub fn replay(kind: &str, seed: u64) -> Option<RunOutcome> {
         "c14" => Some(run(seed, false)),
         "c14-dense" => Some(run(seed, true)),
         "c14-faulty-flush" => Some(run_mode(seed, false, 40)),
+        "c14-rewrite" => Some(run_full(seed, false, 0, true)),
         _ => None,
     }
 }
@@ -193,6 +276,7 @@ pub fn batches(tier: &str, seed: u64) -> Vec<Batch<'static>> {
     let n3 = n1;
     vec![
         Batch { name: "transient storage error inside flush, caller retries: a flush that finally returns Ok is a flush point".into(), runs: n3, f: Box::new(move |i| run_mode(crate::rng::run_seed(seed, 43, i), false, 40)) },
+        Batch { name: "prologue: flushed file shrunk / emptied, flushed, grown again, flushed; other files allocate (same or next session); then a seeded history".into(), runs: n1, f: Box::new(move |i| run_full(crate::rng::run_seed(seed, 44, i), false, 0, true)) },
         Batch { name: "histories with flush points, crash points sampled when > 48".into(), runs: n1, f: Box::new(move |i| run(crate::rng::run_seed(seed, 41, i), false)) },
         Batch { name: "histories with flush points, EVERY later crash point".into(), runs: n2, f: Box::new(move |i| run(crate::rng::run_seed(seed, 42, i), true)) },
     ]
